@@ -81,6 +81,12 @@ func classify(m *caseMeta, lines []string) string {
 	if m != nil && strings.Contains(m.Lit, "__proto__") {
 		return "proto-key"
 	}
+	if m != nil && strings.Contains(m.Lit, "\u00c4b") {
+		return "nonascii-struct-field-name"
+	}
+	if m != nil && m.Dir == "go2js" && m.Path == 6 && (m.Kind == "array" || m.Kind == "struct") {
+		return "jstag-field-assign-array-or-struct"
+	}
 	for _, l := range lines {
 		i, j := strings.Index(l, " got="), strings.Index(l, " want=")
 		if i > 0 && j > i {
@@ -88,13 +94,16 @@ func classify(m *caseMeta, lines []string) string {
 			if strings.Contains(want, "8000000000000000") && strings.ReplaceAll(want, "8000000000000000", "0000000000000000") == got {
 				return "negzero-lost"
 			}
-			if strings.Contains(want, ":80000000") && strings.ReplaceAll(want, "80000000", "00000000") == got {
+			if strings.Contains(want, "80000000") && strings.ReplaceAll(want, "80000000", "00000000") == got {
 				return "negzero-lost"
 			}
 		}
 	}
 	if m != nil && m.Dir == "js2go" && m.Kind == "string" && (strings.Contains(joined, ".L got=") || strings.Contains(joined, ".U got=")) && !strings.Contains(joined, ".I got=") {
 		return "int64-accessor-not-parseInt"
+	}
+	if strings.Contains(joined, guardErr) || strings.Contains(joined, "T trace differs") {
+		return "callback-guard"
 	}
 	if strings.Contains(joined, "\nX ") || strings.HasPrefix(joined, "X ") {
 		return "crash"
@@ -166,8 +175,7 @@ func Run(c *core.Ctx) int {
 			r := c.Rand("slices" + sfx)
 			p := newProg("slices" + sfx)
 			n := 0
-			elemKinds := append(append([]Kind{}, scalarKinds...), KAny)
-			for _, k := range elemKinds {
+			for _, k := range append(append([]Kind{}, elemKinds...), KAny) {
 				et := basics[k]
 				vals := []*Val{mkNilSlice(et), mkSlice(et, 0)}
 				for i := 0; i < 3+nrand/3; i++ {
@@ -466,6 +474,14 @@ func Run(c *core.Ctx) int {
 		if !ended && len(bad) == 0 {
 			bad["end"] = append(bad["end"], fmt.Sprintf("M program did not end normally: exit=%d last line=%q stderr=%s", run.Exit, last(lines), clip(run.Stderr, 1500)))
 		}
+		if j.sp != nil && j.sp.trace != nil && len(bad) > 0 {
+			// a scenario program is one case: report it once
+			var all []string
+			for _, cid := range sortedBadKeys(bad) {
+				all = append(all, bad[cid]...)
+			}
+			bad = map[string][]string{"scenario": all}
+		}
 		for cid, ls := range bad {
 			var m *caseMeta
 			if j.gen != nil {
@@ -557,6 +573,10 @@ func Run(c *core.Ctx) int {
 	c.Count("go_side_checks_passed", checksPassed)
 	c.Count("js_side_records_matched", recordsMatched)
 	c.Count("failing_cases", len(failures))
+	sort.Strings(failures)
+	if len(failures) > 300 {
+		failures = failures[:300]
+	}
 	byKind := map[string]int{}
 	for k, n := range byDirKindPath {
 		parts := strings.SplitN(k, "/", 3)
@@ -578,6 +598,7 @@ func Run(c *core.Ctx) int {
 		"type_class_pairs":              pairs,
 		"callback_guard_observations":   guardObs,
 		"failure_classes":               classCount,
+		"failing_case_keys":             failures,
 		"bulk_value_cases":              bulkCases,
 		"unobserved":                    []string{"time.Time <-> Date (package time does not build under GopherJS in this sandbox)", "DOM Node (no DOM under node)", "MakeFullWrapper", "js.Module", "browsers / engines other than node v20"},
 		"doc_silent_observed_not_asserted": []string{"typed read-back of null as map / *struct / func", "Interface() of undefined", "ill-formed UTF-16 -> Go string", "invalid UTF-8 -> JS string", "integers beyond 2^53", "cyclic arrays", "[]uintptr class", "non-string map keys", "complex numbers"},
@@ -589,6 +610,15 @@ func Run(c *core.Ctx) int {
 			"node v20 is the JavaScript engine; typed read-back of null as map/pointer/func is treated as undocumented",
 			"values beyond ±2^53, invalid UTF-8 and ill-formed UTF-16 are only required not to crash and to convert deterministically",
 		})
+}
+
+func sortedBadKeys(m map[string][]string) []string {
+	ks := make([]string, 0, len(m))
+	for k := range m {
+		ks = append(ks, k)
+	}
+	sort.Strings(ks)
+	return ks
 }
 
 func clip(s string, n int) string {
@@ -653,6 +683,8 @@ func genFixedComposites(p *prog) {
 	}
 	add(&Val{T: outer, E: []*Val{mkInner(1, "h1", 1, 2), {T: ptrTo(inner), E: []*Val{mkInner(-two53, "h2")}}, {T: mapOf(inner), Keys: []string{"k"}, E: []*Val{mkInner(3, "h3", 255)}},
 		{T: sliceOf(inner), E: []*Val{mkInner(4, "h4"), mkInner(5, "h5", 0)}}, {T: arrayOf(2, inner), E: []*Val{mkInner(6, "", 7), mkInner(7, "", 8)}}}})
+	uni := p.newStruct(Fld{"\u00c4b", I}, Fld{"B", S})
+	add(&Val{T: uni, E: []*Val{mkInt(KInt, 4), mkStr("b")}})
 	onlyHidden := p.newStruct(Fld{"a", I}, Fld{"b", S})
 	add(&Val{T: onlyHidden, E: []*Val{mkInt(KInt, 1), mkStr("x")}})
 	// interfaces holding each kind of value
